@@ -643,6 +643,8 @@ func faithful(res *pbt.Result, s *Stmt, sql string, cfg *types.Config, cond stri
 // Layout relation: field-by-field deep equality of two parsed configurations
 // ---------------------------------------------------------------------------------------------
 
+var caseKw = regexp.MustCompile(`(?i)\b(case|when|then|else|end)\b`)
+
 func layoutDiff(res *pbt.Result, s *Stmt, sqlA, sqlB string, a, b parseOut) {
 	if (a.err == nil) != (b.err == nil) {
 		res.Add(pbt.D("layout-accept", "same tokens, different layout: one text is accepted, the other rejected: A=%s err=%v ; B=%s err=%v", short(sqlA), a.err, short(sqlB), b.err))
@@ -669,6 +671,12 @@ func layoutDiff(res *pbt.Result, s *Stmt, sqlA, sqlB string, a, b parseOut) {
 			}
 			ja, _ := json.Marshal(fa)
 			jb, _ := json.Marshal(fb)
+			// expression text keeps the letter case of CASE/WHEN/THEN/ELSE/END as written: that is not structure
+			var ga, gb any
+			if json.Unmarshal([]byte(caseKw.ReplaceAllStringFunc(string(ja), strings.ToUpper)), &ga) == nil &&
+				json.Unmarshal([]byte(caseKw.ReplaceAllStringFunc(string(jb), strings.ToUpper)), &gb) == nil && reflect.DeepEqual(ga, gb) {
+				continue
+			}
 			res.Add(pbt.D(kind, "same tokens, different layout: Config.%s differs: %s vs %s; A=%s B=%s", tp.Field(i).Name, ja, jb, short(sqlA), short(sqlB)))
 		}
 	}
